@@ -11,6 +11,7 @@ import (
 	"go/parser"
 	"go/token"
 	"os"
+	"path/filepath"
 	"strings"
 )
 
@@ -20,15 +21,15 @@ type seamSpec struct {
 }
 
 var seams = []seamSpec{
-	{"/repo/dns/resolve.go", "DoH"},
-	{"/repo/publish/cloudflare.go", "getZoneData"},
-	{"/repo/publish/cloudflare.go", "updateRecord"},
+	{"dns/resolve.go", "DoH"},
+	{"publish/cloudflare.go", "getZoneData"},
+	{"publish/cloudflare.go", "updateRecord"},
 }
 
 func applySeams(ov map[string][]byte) error {
 	byFile := map[string][]string{}
 	for _, s := range seams {
-		byFile[s.File] = append(byFile[s.File], s.Func)
+		byFile[filepath.Join(repoRoot, s.File)] = append(byFile[filepath.Join(repoRoot, s.File)], s.Func)
 	}
 	for file, funcs := range byFile {
 		src, err := os.ReadFile(file)
